@@ -1,8 +1,19 @@
 #!/bin/sh
-# Offline setup: nothing to fetch. Warm the Verus start-up cache and (if present) the Kani target dir.
-set -e
-cd "$(dirname "$0")"
-mkdir -p .work evidence replay .cache
+# Offline setup after a fresh restore: nothing is fetched.  Warms the caches the checks use:
+#  - Verus first start (loads vstd)
+#  - Kani build of the real crate with the cfg(kani) harness hooks (target dir /verif/.cache/kani-target)
+#  - native bounded harness crate (path dependency on /repo; target dir /verif/.cache/native-target)
+# Every check rebuilds what it needs from /repo's working tree anyway; this only makes the first check faster.
+cd "$(dirname "$0")" || exit 1
+mkdir -p .work evidence replay .cache/verus .cache/kani-target .cache/native-target
+export CARGO_NET_OFFLINE=true
 command -v verus >/dev/null || { echo "verus not on PATH"; exit 1; }
-if [ -x engine/ksetup.sh ]; then engine/ksetup.sh || true; fi
-echo setup ok
+command -v cargo-kani >/dev/null || { echo "cargo-kani not on PATH"; exit 1; }
+printf 'use vstd::prelude::*;\nverus!{ proof fn t() ensures 1 + 1 == 2int {} }\nfn main(){}\n' > .work/warm.rs
+(cd .work && verus warm.rs >/dev/null 2>&1) || echo "warning: verus warm-up failed"
+(cd /repo && CARGO_TARGET_DIR=/verif/.cache/kani-target cargo kani -Z function-contracts -Z stubbing --only-codegen >/verif/.work/kani-setup.log 2>&1) \
+    || echo "warning: kani codegen failed (see .work/kani-setup.log); Kani units will be reported UNDECIDED"
+[ -f native/Cargo.lock ] || cp /repo/Cargo.lock native/Cargo.lock
+(CARGO_TARGET_DIR=/verif/.cache/native-target cargo build --offline --bins --manifest-path native/Cargo.toml >/verif/.work/native-setup.log 2>&1) \
+    || echo "warning: native harness build failed (see .work/native-setup.log)"
+echo "setup ok"
